@@ -39,6 +39,18 @@ enum X {
     Pair(Box<X>, Box<X>),
 }
 
+#[derive(Clone, Debug)]
+enum Op {
+    /// mention a leaf so that it gets its id now
+    Touch(usize),
+    Box(usize, X),
+    Has(usize, X),
+    Cnt(usize, X, i64),
+    L(usize),
+    Union(usize, usize),
+    Run,
+}
+
 struct Kind {
     sort: &'static str,
     decl: &'static str,
@@ -380,44 +392,128 @@ pub fn run(a: &Args) -> Report {
             v.truncate(2 + rng.below(4));
             v
         };
-        let ncmds = 12 + rng.below(20);
+        // Hostile block (scripted prefix): a few leaves created in a chosen id order, small
+        // containers over them spread over Box/Has/cnt in a chosen creation order (so that which
+        // container id is older varies), one run, then the leaves are unioned step by step with a
+        // run after each union. This is the shape in which an in-place rebuilt container collides
+        // with an equal container of larger or smaller id and a later union must find it again.
+        let mut script: std::collections::VecDeque<Op> = Default::default();
+        if big || rng.chance(1, 2) {
+            let base = if big { 0 } else { 0 };
+            let mut ls: Vec<usize> = (base..base + (3 + rng.below(2)).min(nleaf)).collect();
+            rng.shuffle(&mut ls);
+            for l in &ls {
+                script.push_back(Op::Touch(*l));
+            }
+            let k = *rng.pick(&[0usize, 0, 1, 2, 5, 3, 7, 10]);
+            let mut conts: Vec<X> = vec![];
+            for l in &ls {
+                let e = X::Leaf(*l);
+                conts.push(match k {
+                    0 => X::Vec(vec![e.clone()]),
+                    1 => X::Set(vec![e.clone()]),
+                    2 => X::MSet(vec![e.clone()]),
+                    5 => X::Pair(Box::new(e.clone()), Box::new(X::Leaf(ls[0]))),
+                    3 => X::MapV(vec![(0, e.clone())]),
+                    7 => X::Vec(vec![X::Vec(vec![e.clone()])]),
+                    _ => X::Vec(vec![X::Set(vec![e.clone()])]),
+                });
+                if rng.chance(1, 2) && matches!(k, 0 | 1 | 2) {
+                    let e2 = X::Leaf(*rng.pick(&ls));
+                    conts.push(match k {
+                        0 => X::Vec(vec![e.clone(), e2]),
+                        1 => X::Set(vec![e.clone(), e2]),
+                        _ => X::MSet(vec![e.clone(), e2]),
+                    });
+                }
+            }
+            rng.shuffle(&mut conts);
+            for c in conts {
+                script.push_back(match rng.below(3) {
+                    0 => Op::Box(k, c),
+                    1 => Op::Has(k, c),
+                    _ => Op::Cnt(k, c, rng.range(0, 5)),
+                });
+                if rng.chance(1, 6) {
+                    script.push_back(Op::Run);
+                }
+            }
+            for l in &ls {
+                if rng.chance(1, 2) {
+                    script.push_back(Op::L(*l));
+                }
+            }
+            script.push_back(Op::Run);
+            let mut order = ls.clone();
+            rng.shuffle(&mut order);
+            for w in order.windows(2) {
+                script.push_back(Op::Union(w[0], w[1]));
+                if rng.chance(3, 4) {
+                    script.push_back(Op::Run);
+                }
+            }
+            script.push_back(Op::Run);
+            rep.count("hostile_blocks", 1);
+        }
+        let ncmds = script.len() + 12 + rng.below(20);
         let mut changed_by_union = false;
         let mut all_terms: Vec<X> = vec![];
         for ci in 0..ncmds {
-            // choose a command
-            let r = rng.below(10);
             let leafspace = if big { 40 } else { nleaf };
-            let mut g = G { rng: &mut rng, nleaf: leafspace, boxes: ex.boxes.iter().enumerate().flat_map(|(k, v)| v.iter().map(move |c| X::Box(k, Box::new(c.clone())))).take(12).collect() };
+            let op = match script.pop_front() {
+                Some(o) => o,
+                None => {
+                    let r = rng.below(10);
+                    let mut g = G { rng: &mut rng, nleaf: leafspace, boxes: ex.boxes.iter().enumerate().flat_map(|(k, v)| v.iter().map(move |c| X::Box(k, Box::new(c.clone())))).take(12).collect() };
+                    match r {
+                        0..=2 => {
+                            let k = *g.rng.pick(&kinds_used);
+                            Op::Box(k, g.cont(k, 1))
+                        }
+                        3 | 4 => {
+                            let k = *g.rng.pick(&kinds_used);
+                            // reuse an existing boxed container's shape often, so that joins have a chance
+                            let c = if !ex.boxes[k].is_empty() && g.rng.chance(1, 2) { g.rng.pick(&ex.boxes[k]).clone() } else { g.cont(k, 1) };
+                            Op::Has(k, c)
+                        }
+                        5 => {
+                            let k = *g.rng.pick(&kinds_used);
+                            let c = if !ex.boxes[k].is_empty() && g.rng.chance(1, 2) { g.rng.pick(&ex.boxes[k]).clone() } else { g.cont(k, 1) };
+                            Op::Cnt(k, c, g.rng.range(0, 5))
+                        }
+                        6 => Op::L(g.rng.below(leafspace)),
+                        7 | 8 => {
+                            if big && g.rng.chance(1, 2) {
+                                Op::Union(100 + g.rng.below(1200), 100 + g.rng.below(1200))
+                            } else {
+                                Op::Union(g.rng.below(leafspace), g.rng.below(leafspace))
+                            }
+                        }
+                        _ => Op::Run,
+                    }
+                }
+            };
             let mut is_run = false;
-            let cmd: String = match r {
-                0..=2 => {
-                    let k = *g.rng.pick(&kinds_used);
-                    let c = g.cont(k, 1);
+            let cmd: String = match op {
+                Op::Touch(l) => format!("(N {l})"),
+                Op::Box(k, c) => {
                     ex.boxes[k].push(c.clone());
                     all_terms.push(X::Box(k, Box::new(c.clone())));
                     text(&X::Box(k, Box::new(c)))
                 }
-                3 | 4 => {
-                    let k = *g.rng.pick(&kinds_used);
-                    // reuse an existing boxed container's shape often, so that joins have a chance
-                    let c = if !ex.boxes[k].is_empty() && g.rng.chance(1, 2) { g.rng.pick(&ex.boxes[k]).clone() } else { g.cont(k, 1) };
+                Op::Has(k, c) => {
                     ex.has[k].push(c.clone());
                     format!("(Has{k} {})", text(&c))
                 }
-                5 => {
-                    let k = *g.rng.pick(&kinds_used);
-                    let c = if !ex.boxes[k].is_empty() && g.rng.chance(1, 2) { g.rng.pick(&ex.boxes[k]).clone() } else { g.cont(k, 1) };
-                    let v = g.rng.range(0, 5);
+                Op::Cnt(k, c, v) => {
                     ex.cnt[k].push((c.clone(), v));
                     format!("(set (cnt{k} {}) {v})", text(&c))
                 }
-                6 => {
-                    let l = g.rng.below(leafspace);
+                Op::L(l) => {
                     ex.leaves_l.insert(l);
                     format!("(L (N {l}))")
                 }
-                7 | 8 => {
-                    let (x, y) = if big && g.rng.chance(1, 2) { (100 + g.rng.below(1200), 100 + g.rng.below(1200)) } else { (g.rng.below(leafspace), g.rng.below(leafspace)) };
+                Op::Union(x, y) => {
                     // refuse unions that would make two keys of one Map collide (outside the claim)
                     let mut trial = Uf(uf.0.clone());
                     trial.union(x, y);
@@ -443,7 +539,7 @@ pub fn run(a: &Args) -> Report {
                     }
                     format!("(union (N {x}) (N {y}))")
                 }
-                _ => {
+                Op::Run => {
                     is_run = true;
                     "(run r 1)".to_string()
                 }
